@@ -41,6 +41,13 @@ def run(chk):
     jobs = [("fin", chk.seed * 100 + i, 6, 200 if quick else 800, 0, s) for i, s in enumerate(["LinearVolatility", "StDev", "MeanAbsDev", "MedianAbsDev"])]
     jobs += [("rec", chk.seed * 100 + 9, 6, 200 if quick else 800, 0, "TR")]
     numfam.record_validate(chk, yv, "c12num", jobs, cfg="Trace_Num.cfg", nproc=5)
+    # the same on scripted streams: volatile at scales 1 .. 1e9, exactly flat for longer than the window, volatile at a small scale
+    os.environ["YV_SCRIPT"] = "flatafter"
+    try:
+        jobs = [("fin", chk.seed * 100 + 20 + i, 24, 260 if quick else 800, 0, s) for i, s in enumerate(["LinearVolatility", "StDev", "MeanAbsDev", "MedianAbsDev"])]
+        numfam.record_validate(chk, yv, "c12flat", jobs, cfg="Trace_Num.cfg", nproc=5)
+    finally:
+        os.environ.pop("YV_SCRIPT", None)
     chk.sample({"direction": "B", "events": read_ndjson(files[0][0])[:2]})
     chk.assumptions += ["ranges are asserted on the logged values up to 1e-11 (relative), on streams with exactly flat stretches and zero-volume bars",
                         "undefined quantities (zero total volume, 0/0) are exempt as the property states"]
